@@ -203,7 +203,24 @@ pub fn gen(seed: u64, n: usize) -> Vec<Value> {
             // one group in seven is unseeded (then without shuffling, which requires a seed)
             let unseeded = rng.random_bool(0.15) && runs.iter().all(|r| !get_bool(r, "shuffle"));
             let seedv: i64 = if unseeded { -1 } else { rng.random_range(0..1000i64) };
-            json!({"lens": lens, "strategy": strategy, "seed": seedv, "epoch": rng.random_range(0..3), "pipeline": pipeline, "runs": runs})
+            let mut case = json!({"lens": lens, "strategy": strategy, "seed": seedv, "epoch": rng.random_range(0..3), "pipeline": pipeline, "runs": runs});
+            // one predictable group in six has one or two lines that cannot be parsed
+            if strategy != "weighted" && total > 0 && rng.random_bool(0.17) {
+                let mut bad: Vec<(usize, usize)> = vec![];
+                for _ in 0..rng.random_range(1..=2) {
+                    let f = rng.random_range(0..nf);
+                    if lens[f] > 0 {
+                        let key = (f, rng.random_range(0..lens[f]));
+                        if !bad.contains(&key) {
+                            bad.push(key);
+                        }
+                    }
+                }
+                if !bad.is_empty() {
+                    case["bad"] = json!(bad.iter().map(|(f, l)| vec![*f, *l]).collect::<Vec<_>>());
+                }
+            }
+            case
         })
         .collect()
 }
